@@ -129,8 +129,15 @@ def gen_form(rng, light=False):
         plain = "".join(rng.choice("abcxyz 019") for _ in range(max(0, edge - rng.choice([0, 0, 1, 2, 3, 5, 8, 40]))))
         run = "".join("\\x%x;" % rng.choice([0x41, 0xe9, 0x3bb, 0x20ac, 0x1F600, 0x10FFFF, 0x80, 0x7ff, 0x800, 0xffff, 0x10000]) for _ in range(rng.choice([1, 2, 3, 8, 40, 200])))
         body = rng.choice([plain + run, run + plain, plain + run + "z" + run, run])
-        kind = rng.below(5)
-        if kind == 0:
+        kind = rng.below(6)
+        if kind == 5:
+            # datum labels: more labels than the reader's initial table, then one far ahead
+            nl = rng.choice([3, 20, 23, 24, 25, 47, 60])
+            big = rng.choice([nl, nl + 1, nl + 15, nl + 17, 100, 200, 300, 400, 430, 600, 5000, 100000])
+            txt = "(" + " ".join("#%d=(a%d)" % (j, j) for j in range(nl)) + " #%d=(z) #%d# #0#)" % (big, big)
+            # as a quoted literal (the core reader parses the program text) or through read (the library reader)
+            src = ("(length '%s)" % txt) if rng.chance(2, 3) else ('(let ((x (read (open-input-string "%s")))) (if (pair? x) (length x) x))' % txt)
+        elif kind == 0:
             src = '(string-length "%s")' % body
         elif kind == 1:
             src = "(string-length (symbol->string '|%s|))" % body.replace(" ", "_")
